@@ -56,7 +56,8 @@ REQUIRED = ["union_volume_checked", "level1_checked", "level2_checked", "levels_
             "two_arm_roots", "two_arm_sampled_levels", "overlapping_neighbours",
             "tangent_neighbours", "disjoint_neighbours", "growing_radii", "tapering_radii",
             "frontend_checked", "named_levels_checked", "same_skeleton_other_radii",
-            "zero_radius_tips", "zero_radius_roots_or_inner_nodes", "far_exact_layouts", "other_length_units",
+            "zero_radius_tips", "zero_radius_roots_or_inner_nodes",
+            "volumes_under_custom_names_and_subclasses", "far_exact_layouts", "other_length_units",
             "levels_as_numpy_integers", "failed_calls_before_measuring", "lattice_directions",
             "frontend_other_request_spellings"]
 FLOOR = {"quick": 500, "thorough": 20000}
@@ -432,6 +433,24 @@ def exec_sums(ctx, case):
                 f"accuracy={acc}: reported {got:.8g}, "
                 f"{'sum of node spheres' if acc == 1 else 'sum of spheres and frusta'} = "
                 f"{want:.8g} (n={len(pid)})", case)
+    if case["tree"]["seed"] % 4 == 2 and type(tree).__name__ == "Tree":
+        # other implementers of the same interface: a twin under custom column names, and a user
+        # subclass that stores voxel units and reports physical ones through get_ndata
+        def levels(t):
+            return [float(get_volume(t, accuracy=a_)) for a_ in (1, 2)] + \
+                   [float(np.asarray(extract_feature(t).get("volume", accuracy=2)).ravel()[0])]
+
+        r = G.same_under_renaming(levels, tree, level=case["tree"]["seed"] // 4 % 2)
+        ctx.count("volumes_under_custom_names_and_subclasses")
+        if r is None:
+            try:
+                a_, b_ = levels(tree), levels(G.voxel_twin(tree))
+                r = G._same(a_, b_, "volume levels 1, 2 and the front end")
+                r = r and f"for a Tree subclass reporting its columns through get_ndata: {r}"
+            except Exception as e:
+                r = f"a Tree subclass overriding get_ndata: raised {type(e).__name__}: {str(e)[:100]}"
+        if r:
+            return ctx.violation("other-implementer", f"get_volume: {r}", case)
 
 
 def execute(ctx, case):
